@@ -886,15 +886,15 @@ func shapeOf(v cty.Value) (s string) {
 		}
 		switch {
 		case ty == cty.Number:
-			lo, li := r.NumberLowerBound()
-			hi, hii := r.NumberUpperBound()
+			lo, _ := r.NumberLowerBound()
+			hi, _ := r.NumberUpperBound()
 			if lo.IsKnown() && !(isInf(lo)) {
-				s += fmt.Sprintf(",lo%s%v", numClass(lo), b2i(li))
+				s += ",lo"
 			} else if lo.IsKnown() && bf(lo).Sign() > 0 {
 				s += ",lo+inf"
 			}
 			if hi.IsKnown() && !(isInf(hi)) {
-				s += fmt.Sprintf(",hi%s%v", numClass(hi), b2i(hii))
+				s += ",hi"
 			} else if hi.IsKnown() && bf(hi).Sign() < 0 {
 				s += ",hi-inf"
 			}
@@ -904,10 +904,10 @@ func shapeOf(v cty.Value) (s string) {
 			}
 		case ty.IsCollectionType():
 			if r.LengthLowerBound() > 0 {
-				s += fmt.Sprintf(",minlen%d", r.LengthLowerBound())
+				s += ",minlen"
 			}
 			if r.LengthUpperBound() != math.MaxInt {
-				s += fmt.Sprintf(",maxlen%d", r.LengthUpperBound())
+				s += ",maxlen"
 			}
 		}
 		return s + ")"
@@ -916,7 +916,7 @@ func shapeOf(v cty.Value) (s string) {
 	case ty == cty.Number:
 		return marks + "num:" + numClass(v)
 	case ty == cty.String:
-		return marks + "str:" + strClass(v.AsString())
+		return marks + "str"
 	case ty == cty.Bool:
 		return marks + "bool"
 	case ty.IsCapsuleType():
@@ -951,21 +951,18 @@ func numClass(v cty.Value) string {
 		}
 		return "zero"
 	}
-	s := "pos"
+	s := ""
 	if f.Sign() < 0 {
 		s = "neg"
 	}
 	if !f.IsInt() {
-		s += "frac"
-	} else {
-		abs := new(big.Float).Abs(f)
-		if abs.Cmp(big.NewFloat(1<<53)) > 0 {
-			s += "huge"
-		} else {
-			s += "int"
-		}
+		return fmt.Sprintf("%sfrac@%d", s, f.Prec())
 	}
-	return fmt.Sprintf("%s@%d", s, f.Prec())
+	abs := new(big.Float).Abs(f)
+	if abs.Cmp(big.NewFloat(1<<53)) > 0 {
+		return s + "huge"
+	}
+	return s + "int"
 }
 
 func strClass(s string) string {
